@@ -37,16 +37,20 @@ func NewCache() *Cache {
 
 // getEntry returns a cache entry that matches the SPN.
 func (c *Cache) getEntry(spn string) (CacheEntry, bool) {
+	verifLock("want", "cache", "r", c)
 	c.mux.RLock()
 	defer c.mux.RUnlock()
+	defer verifLock("rel", "cache", "r", c)
 	e, ok := (*c).Entries[spn]
 	return e, ok
 }
 
 // JSON returns information about the cached service tickets in a JSON format.
 func (c *Cache) JSON() (string, error) {
+	verifLock("want", "cache", "r", c)
 	c.mux.RLock()
 	defer c.mux.RUnlock()
+	defer verifLock("rel", "cache", "r", c)
 	var es []CacheEntry
 	keys := make([]string, 0, len(c.Entries))
 	for k := range c.Entries {
@@ -66,8 +70,10 @@ func (c *Cache) JSON() (string, error) {
 // addEntry adds a ticket to the cache.
 func (c *Cache) addEntry(tkt messages.Ticket, authTime, startTime, endTime, renewTill time.Time, sessionKey types.EncryptionKey) CacheEntry {
 	spn := tkt.SName.PrincipalNameString()
+	verifLock("want", "cache", "w", c)
 	c.mux.Lock()
 	defer c.mux.Unlock()
+	defer verifLock("rel", "cache", "w", c)
 	(*c).Entries[spn] = CacheEntry{
 		SPN:        spn,
 		Ticket:     tkt,
@@ -82,8 +88,10 @@ func (c *Cache) addEntry(tkt messages.Ticket, authTime, startTime, endTime, rene
 
 // clear deletes all the cache entries
 func (c *Cache) clear() {
+	verifLock("want", "cache", "w", c)
 	c.mux.Lock()
 	defer c.mux.Unlock()
+	defer verifLock("rel", "cache", "w", c)
 	for k := range c.Entries {
 		delete(c.Entries, k)
 	}
@@ -91,8 +99,10 @@ func (c *Cache) clear() {
 
 // RemoveEntry removes the cache entry for the defined SPN.
 func (c *Cache) RemoveEntry(spn string) {
+	verifLock("want", "cache", "w", c)
 	c.mux.Lock()
 	defer c.mux.Unlock()
+	defer verifLock("rel", "cache", "w", c)
 	delete(c.Entries, spn)
 }
 
